@@ -335,6 +335,7 @@ func encryptsFreshMemory(p *Program, r *Reporter) {
 	if w := p.mustFunc(r, pkgApp, "writeChunkedSegment"); w != nil {
 		encryptBeforeWriteRule(p, r, w)
 	}
+	encDataRefusalRule(p, r)
 	if la := p.mustFunc(r, pkgApp, "(*Server).laURLHandlerFunc"); la != nil {
 		respondOnceRule(p, r, la, 3)
 	}
